@@ -470,6 +470,21 @@ func TestC01(t *testing.T) {
 		members = append(members, c01Member{Files: []cfg.Config{c}, Stub: v&2 != 0, IgnoreP: true, IgnoreS: true,
 			Labels: []string{"accepted-under-ignore-flags", "no-services-declared", fmt.Sprintf("stub:%v", v&2 != 0)}})
 	}
+	// (e) size: a string of 70,000 characters, a pattern of 1,300 chunks, 300 services (one generated line or block far
+	// beyond 64 KiB)
+	for v := 0; v < 2; v++ {
+		idx++
+		if !ev.Mine(idx) {
+			continue
+		}
+		c := cfg.Config{Meta: cfg.Meta{Pkg: sp("app")}, Params: []cfg.Param{{Name: "a", Val: cfg.Str("v")},
+			{Name: "blob", Val: cfg.Str(strings.Repeat("0123456789", 7000))}, {Name: "chunks", Val: cfg.Str(strings.Repeat("%a%", 1300))}}}
+		for i := 0; i < 300; i++ {
+			c.Services = append(c.Services, cfg.Service{Name: fmt.Sprintf("s%03d", i), Ctor: sp("fx/lib.NewObj"), Args: []cfg.Val{cfg.Str("%a%"), cfg.Int(int64(i))}})
+		}
+		c.Services[0].Args = append(c.Services[0].Args, cfg.Str(strings.Repeat("é", 40000)))
+		members = append(members, c01Member{Files: []cfg.Config{c}, Stub: v == 1, Labels: []string{"size:long-lines-and-many-services", fmt.Sprintf("stub:%v", v == 1), "files:1"}})
+	}
 	for len(members) > 0 {
 		n := 32
 		if n > len(members) {
